@@ -93,6 +93,13 @@ pub fn run(mut config: Config) -> ::anyhow::Result<()> {
             let mut counter = 0usize;
 
             loop {
+                #[cfg(feature = "verif")]
+                if let aquatic_common::verif::ProbeAction::Return =
+                    aquatic_common::verif::probe("udp:cleaning:loop", 0)
+                {
+                    return Ok(());
+                }
+
                 sleep(Duration::from_secs(
                     config.cleaning.torrent_cleaning_interval,
                 ));
@@ -165,7 +172,21 @@ pub fn run(mut config: Config) -> ::anyhow::Result<()> {
         let handle: JoinHandle<anyhow::Result<()>> = Builder::new()
             .name("signals".into())
             .spawn(move || {
+                #[cfg(feature = "verif")]
+                if let aquatic_common::verif::ProbeAction::Return =
+                    aquatic_common::verif::probe("udp:signals:start", 0)
+                {
+                    return Ok(());
+                }
+
                 for signal in &mut signals {
+                    #[cfg(feature = "verif")]
+                    if let aquatic_common::verif::ProbeAction::Return =
+                        aquatic_common::verif::probe("udp:signals:loop", 0)
+                    {
+                        return Ok(());
+                    }
+
                     match signal {
                         SIGUSR1 => {
                             let _ = update_access_list(&config.access_list, &state.access_list);
